@@ -151,6 +151,12 @@ def _explore(args):
             return Run(run_scenario(sc, strategy, line_level))
         for s in ds.explore(once, max_preemptions=2, max_runs=nruns):
             out.append((s.res['choices'], alpha(s.res, sc)))
+    elif mode == 'corpus':
+        # schedules that exposed a defect once (corpus/C11.json): replayed on every run
+        for entry in json.loads((core.VERIF / 'corpus' / 'C11.json').read_text()):
+            if entry['scenario'] == name:
+                r = run_scenario(sc, ds.GuidedStrategy(entry['choices']), line_level)
+                out.append((r['choices'], alpha(r, sc)))
     else:
         for k in range(nruns):
             r = run_scenario(sc, ds.RandomStrategy(seed * 7919 + k, stay=0.3 + 0.5 * ((seed + k) % 3) / 2), line_level)
@@ -236,6 +242,8 @@ def run(chk):
             jobs.append((name + '@reset', 'dfs', chk.seed, 80 if quick else 1500, False))
         if not quick:
             jobs.append((name, 'rnd', chk.seed * 17 + 5, 400, True))    # line-level preemption
+    for name in sorted({e['scenario'] for e in json.loads((core.VERIF / 'corpus' / 'C11.json').read_text())}):
+        jobs.append((name, 'corpus', 0, 0, False))
     results = pool_map(_explore, jobs, chunksize=1)
     traces, origin = [], []
     seen = set()
